@@ -459,6 +459,16 @@ def rule_topo(ctx):
         f'self._children.append({p})' in full(au.node)
     ctx.ob('C02.topo', f'{sd.module.name}:SynthDef._add_ugen:snapshot', ok,
            'each new unit snapshots the width-first units created before it', au.node, sd.module)
+    # units created by the optimiser are not registered by _add_ugen (rewrite in progress): _replace_ugen must hand the
+    # ordering edges of the replaced unit over, otherwise a fused unit can be sorted before a width-first unit created earlier
+    rp = ctx.repo.func('sc3.synth.synthdef:SynthDef._replace_ugen')
+    pa_, pb_ = rp.params[1], rp.params[2]
+    ok = any(isinstance(x, ast.Assign) and norm(x.targets[0]) == f'{pb_}._width_first_antecedents' and
+             norm(x.value) == f'{pa_}._width_first_antecedents' for x in walk_local(rp.node))
+    ctx.ob('C02.topo', f'{rp.module.name}:SynthDef._replace_ugen:inherits-width-first-antecedents', ok,
+           'a replacement unit must inherit the width-first antecedents of the unit it replaces (it was created while _add_ugen is disabled)', rp.node, rp.module)
+    ok = 'if not self._rewrite_in_progress:' in full(au.node)
+    ctx.ob('C02.topo', f'{sd.module.name}:SynthDef._add_ugen:rewrite-guard', ok, 'units created during optimisation are installed by _replace_ugen, not appended', au.node, sd.module)
     # classes that override _add_to_synth must still register (or be OutputProxy)
     for ci in ctx.repo.classes.values():
         if ctx.repo.is_subclass(ci, so) and '_add_to_synth' in ci.methods and ci not in (so, wf):
@@ -646,6 +656,8 @@ class AmpCompA""", new="""            return self._check_sr_as_first_input()
 class AmpCompA"""),
     dict(rule='C02.valid', name='NaN accepted', file='sc3/synth/_graphparam.py',
          old="return not isnan(self._param_value)", new="return True"),
+    dict(rule='C02.topo', name='replacement unit forgets width-first antecedents', file='sc3/synth/synthdef.py',
+         old="        b._width_first_antecedents = a._width_first_antecedents\n", new="        b._width_first_antecedents = []\n"),
 ]
 
 REPAIRS = []
